@@ -2,6 +2,7 @@ package main
 
 import (
 	"fmt"
+	"os"
 	"regexp"
 	"strings"
 
@@ -67,7 +68,6 @@ type syncLoopCtx struct {
 	fn       *ssa.Function
 	mainHdr  *ssa.BasicBlock // outer for loop
 	innerHdr *ssa.BasicBlock // loadReadySnapshotsLoop
-	startHdr *ssa.BasicBlock // initial listing loop
 }
 
 func findSyncLoop(c *Check, rule string) *syncLoopCtx {
@@ -79,12 +79,11 @@ func findSyncLoop(c *Check, rule string) *syncLoopCtx {
 	c.UseFunc(fnSyncLoop)
 	w := &Walker{P: c.P, loops: map[*ssa.Function]*loopInfo{}}
 	next := loopHeaders(w, fn, func(in ssa.Instruction) bool { return isCallTo(in, "syncer/receiver.(*Receiver).Next") })
-	runOnce := loopHeaders(w, fn, func(in ssa.Instruction) bool { return isCallTo(in, "syncer/receiver.(*Receiver).RunOnce") })
-	if len(next) < 2 || len(runOnce) < 1 {
-		c.Undecided(rule, fnSyncLoop, fmt.Sprintf("expected the main loop and the load loop around Receiver.Next (found %d loops) and the start-up listing loop around Receiver.RunOnce (found %d)", len(next), len(runOnce)), c.P.Pos(fn.Pos()))
+	if len(next) < 2 {
+		c.Undecided(rule, fnSyncLoop, fmt.Sprintf("expected the main loop and the load loop around Receiver.Next (found %d loops)", len(next)), c.P.Pos(fn.Pos()))
 		return nil
 	}
-	return &syncLoopCtx{fn: fn, mainHdr: next[0], innerHdr: next[len(next)-1], startHdr: runOnce[len(runOnce)-1]}
+	return &syncLoopCtx{fn: fn, mainHdr: next[0], innerHdr: next[len(next)-1]}
 }
 
 func keepRe(re string) (func(Atom) bool, func(*Event) bool) {
@@ -115,9 +114,9 @@ func (c *Check) walkRegion(rule string, fn *ssa.Function, entry *ssa.BasicBlock,
 }
 
 // isOwnID: the canonical origin of s.instanceID() (s being the receiver, however it is held).
-func isOwnID(v string) bool {
-	return strings.HasPrefix(v, "syncer.(*Syncer).instanceID(") && (strings.HasSuffix(v, ":s)") || strings.HasSuffix(v, ":s})"))
-}
+var reOwnID = regexp.MustCompile(`^syncer\.\(\*Syncer\)\.instanceID\((&\{)?(param|local|\*free):[A-Za-z_][A-Za-z_0-9]*\}?\)$`)
+
+func isOwnID(v string) bool { return reOwnID.MatchString(v) }
 
 // C05-R1 OWN-FIRST: no upload while the own instance is still waited for.
 func ruleOwnFirst(c *Check, rule string) {
@@ -430,12 +429,37 @@ func ruleTrigger(c *Check, ruleTrig, ruleOnly string) {
 		}
 		hasData, hdFound := condTruth(p, "#0.LastTxnID > const:0", -1)
 		_ = hdFound
-		overdueT, overdueF := condTruth(p, "time.Since@", -1)
+		// elapsed > interval, whichever way the comparison is written
+		overdueT, overdueF := false, false
+		for _, cd := range p.Conds() {
+			a := cd.Atom
+			if a.Kind != "cmp" || !(strings.HasPrefix(a.A, "time.Since@") || strings.HasPrefix(a.B, "time.Since@")) {
+				continue
+			}
+			overdueF = true
+			x, y := a.A, a.B
+			if strings.HasPrefix(a.B, "time.Since@") {
+				x, y = a.B, a.A
+			}
+			// the relation this condition established when it was taken (the
+			// final state may have forgotten it at a later call)
+			r := a.R
+			if !cd.Truth {
+				r = ANY &^ a.R
+			}
+			if x != a.A {
+				r = r.Flip()
+			}
+			overdueT = r == GT && strings.HasSuffix(y, "StorageForceSnapshotInterval")
+		}
 		enabledT, enabledF := condTruth(p, "ReceiveOnly", -1)
 		overdue := overdueF && overdueT && enabledF && enabledT
 		if len(sends) > 0 {
 			nSend++
 			if gt != GT && !overdue {
+				if os.Getenv("LSCHECK_DEBUG") != "" {
+					fmt.Fprintln(os.Stderr, "DBG overdue", overdueF, overdueT, enabledF, enabledT, p.CondStrings())
+				}
 				badOnly++
 				if badOnly <= 2 {
 					c.Bad(ruleOnly, fnSyncLoop+"/upload-only-on-change", fmt.Sprintf("SendOnce is reached with LastTxnID %s watermark and no overdue forced snapshot: an upload without a local change", gt), evPos(c, sends[0]), describe(c, p))
@@ -703,6 +727,7 @@ func funcCalls(fn *ssa.Function, name string) bool {
 // feeds SeenInstances()/HasSnapshots() does not depend on includingOwn.
 func ruleListingIncludesOwn(c *Check, rule string) {
 	name := "syncer/receiver.(*Receiver).RunOnce"
+	inclOwn := param(c.P.Func(name), 2)
 	fn, paths := c.walkFn(rule, name, WalkConfig{Memo: true,
 		KeepEvent: func(e *Event) bool {
 			return e.Kind == "ret" || e.Kind == "store" && (strings.HasSuffix(e.Addr, ".lastSeenByInstance") || strings.HasSuffix(e.Addr, ".hasSnapshots")) ||
@@ -710,7 +735,7 @@ func ruleListingIncludesOwn(c *Check, rule string) {
 		},
 		KeepAtom: func(a Atom) bool {
 			s := a.String()
-			return strings.Contains(s, "includingOwn") || strings.Contains(s, "ownInstance") || strings.Contains(s, "Interface.List@")
+			return strings.Contains(s, inclOwn) || strings.Contains(s, "ownInstance") || strings.Contains(s, "Interface.List@")
 		}})
 	if paths == nil {
 		return
